@@ -120,6 +120,20 @@ class AugmentedFlowProposal(FlowProposal):
 
         return x_prime, log_J
 
+    def inverse_rescale(self, x_prime, **kwargs):
+        """Inverse rescaling that also returns the augment parameters.
+
+        Parameters
+        ----------
+        x_prime : array
+            Structured array in the X prime space with augment parameters in
+            the fields.
+        """
+        x, log_J = super().inverse_rescale(x_prime, **kwargs)
+        for an in self.augment_parameters:
+            x[an] = x_prime[an]
+        return x, log_J
+
     def augmented_prior(self, x):
         """
         Log Gaussian for augmented variables.
